@@ -64,6 +64,9 @@ class Budget(object):
         mon = self.mon
         if mon is not None:
             try:
+                if mon.get_tool(3) is not None:      # left over from a run whose clean-up was interrupted by the alarm
+                    mon.set_events(3, 0)
+                    mon.free_tool_id(3)
                 mon.use_tool_id(3, 'verif-budget')
                 mon.register_callback(3, mon.events.JUMP, self._jump)
                 mon.set_events(3, mon.events.JUMP)
@@ -77,6 +80,19 @@ class Budget(object):
             if mon is not None:
                 mon.set_events(3, 0)
                 mon.free_tool_id(3)
+
+
+def budget_off():
+    """make sure no budget instrumentation is left switched on (the alarm of guarded() can interrupt Budget.run's clean-up)"""
+    sys.setprofile(None)
+    mon = getattr(sys, 'monitoring', None)
+    if mon is not None:
+        try:
+            if mon.get_tool(3) is not None:
+                mon.set_events(3, 0)
+                mon.free_tool_id(3)
+        except Exception:
+            pass
 
 
 def apply_op(op, s):
@@ -214,6 +230,7 @@ def run_batch(batch, codecs, scripts, smalls, nrandom, rng, out):
                     rec['hex'] = data[:64].hex()
                 obs.append(rec)
                 # state-corruption sentinel: the same valid input must still decode to the same value
+                budget_off()
                 try:
                     now = repr(spec.decode(name, sentinel_in))
                 except Exception as e:
